@@ -30,7 +30,9 @@ def _cov(rs):
             "ser_C_vs_A:equal-up-to-table-order", "ser_C_vs_A:differs", "ser_generations_alternate(C~A)", "grammar_rejected_at_load",
             "level_mutations", "level_rejected_with_XSerializationException", "level_control_accepted", "truncated_streams", "truncated_at_block_boundary",
             "truncated_at_block_boundary_inside_data", "truncated_only_zero_padding_accepted", "truncated_rejected:XMLException:XSerializationException",
-            "ladder_data_end_within_16_of_block_boundary", "locked_pools_serialized", "locked_pools_restored")},
+            "ladder_data_end_within_16_of_block_boundary", "locked_pools_serialized", "locked_pools_restored", "witnesses_evaluated",
+            "witness_failed:xmldatetime-fraction-lost", "witness_failed:notation-annotation-dropped", "witness_passed:xmldatetime-fraction-lost",
+            "witness_passed:notation-annotation-dropped", "known_defect:xmldatetime-fraction-lost", "known_defect:notation-annotation-dropped")},
     }
 
 
@@ -77,11 +79,18 @@ SPEC = dict(
         "stream layout of annotated schema pools depends on heap addresses (annotation table written in pointer-hash order): the general ladder keeps every string "
         "shorter than one block; strings longer than a block are swept only on pools with address-independent layout",
         "errors reported at the same (severity, line, column) are compared as a set (hash-order of attribute definitions)",
+        "listed defects (drv/c16_defects.hpp): 'xmldatetime-fraction-lost' and 'notation-annotation-dropped' are asserted strictly by the witness run (kind defect:<id>); "
+        "in the other spaces a mismatch is only counted as known_defect:<id> when the witness of <id> fails in the same process AND the narrow predicate explains it "
+        "completely (every differing dump line carries a fractional-seconds time value or is the valid->invalid flip of an owner element / the only differing lines are "
+        "notation declarations identical up to the missing annotation); with a repaired library the witness passes and the predicate is disabled",
+        "locked pools are validated without PSVI handlers: a fresh parser on a locked pool always gets an empty XSModel (GrammarResolver::getXSModel) and "
+        "IGXMLScanner::buildAttList then dereferences a null XSSimpleTypeDefinition - with the original locked pool as well, i.e. not a serialisation defect",
         "after a rejected stream the same pool object usually refuses a second deserializeGrammars ('string pool is not empty'): documented as the client's responsibility, counted only",
     ],
     coverage=_cov,
     runs=dict(
         quick=[
+            _run("witness", "--space", "witness", "--tier", "quick"),
             _run("grammar-families", "--space", "grammars", "--family", "all", "--tier", "quick"),
             _run("level-stamp", "--space", "level", "--tier", "quick"),
             _run("truncation", "--space", "trunc", "--tier", "quick", "--hi", 12, "--modes", "1,2", "--rich", 4),
@@ -90,6 +99,7 @@ SPEC = dict(
             _run("locked-pool", "--space", "locked", "--tier", "quick"),
         ],
         thorough=[
+            _run("witness", "--space", "witness", "--tier", "thorough"),
             _run("grammar-families", "--space", "grammars", "--family", "all", "--tier", "thorough"),
             _run("level-stamp", "--space", "level", "--tier", "thorough"),
             _run("truncation", "--space", "trunc", "--tier", "thorough", "--hi", 200, "--modes", "1,2", "--rich", 8),
